@@ -197,9 +197,15 @@ func Respell(t *rapid.T, tok string, allowExp bool, label string) (string, strin
 		if e >= 0 && rapid.Bool().Draw(t, label+"Plus") {
 			sg = "+"
 		}
-		return sign + mant + es + sg + big.NewInt(e).String(), "equal:exponent-shift"
+		// the exponent is any non-empty digit string: zeros may lead it, as many as one likes
+		abs := new(big.Int).Abs(big.NewInt(e)).String()
+		if e < 0 {
+			sg = "-"
+		}
+		pad := strings.Repeat("0", rapid.SampledFrom([]int{0, 0, 0, 0, 1, 2, 5, 18, 19, 20, 21, 40}).Draw(t, label+"ExpZeros"))
+		return sign + mant + es + sg + pad + abs, "equal:exponent-shift"
 	case 1: // expansion + e0 / E+0 / e-0
-		return d.Expansion() + rapid.SampledFrom([]string{"e0", "E+0", "e-0", "E00"}).Draw(t, label+"E0"), "equal:e0"
+		return d.Expansion() + rapid.SampledFrom([]string{"e0", "E+0", "e-0", "E00", "e-000", "E+0000000000000000000000"}).Draw(t, label+"E0"), "equal:e0"
 	case 2: // trailing zeros in the fraction
 		x := d.Expansion()
 		z := strings.Repeat("0", rapid.IntRange(1, 4).Draw(t, label+"Pad"))
